@@ -292,9 +292,11 @@ PLAIN_CLASSES = ["IntField", "StringField", "BoolField", "FloatField", "ListFiel
 
 def plain_value(cls, j, rng):
     if rng is None:
-        return 1000 + j
+        # (numbers whose binary encodings - BSON int32, pickle BININT - contain the byte pair 0D 0A:
+        # a document is bytes, not text)
+        return 2573 + 65536 * j
     if cls == "IntField":
-        return rng.choice([0, -1, 1, 2**31 - 1, -(2**31), rng.randrange(-(10**9), 10**9)])
+        return rng.choice([0, -1, 1, 2573, 658701, 2**31 - 1, -(2**31), rng.randrange(-(10**9), 10**9)])
     if cls == "StringField":
         return "".join(rng.choice("abcXYZ019_") for _ in range(rng.randrange(1, 12)))
     if cls == "BoolField":
@@ -402,7 +404,7 @@ class Bench:
         if kind == "plain":
             v = plain_value(ex.get("cls", "IntField"), j, rng)
             if rng is None:
-                v += 10 * r
+                v += 655360 * r
             return v
         if kind == "bsecret":
             return ""
